@@ -7,7 +7,7 @@ SRC = [os.path.join(C.VERIF, "harness/platform/h_platform.c"), "acquire-core-lib
 
 
 def run(ctx):
-    exe, log = C.compile_harness("h_platform", SRC, san=False, extra_flags=["-pthread"])
+    exe, log = C.compile_harness("h_platform", SRC, san=False, extra_flags=["-pthread"], libs=["-Wl,--wrap=pthread_cond_wait", "-Wl,--wrap=pthread_timedjoin_np", "-Wl,--wrap=pthread_tryjoin_np", "-Wl,--wrap=pthread_clockjoin_np"])
     if not exe:
         ctx.corr_broken.append({"what": "platform conformance harness does not compile against the repository", "log": log[-2000:]})
         return
